@@ -7,9 +7,11 @@ PROPS = {}
 
 PROPS['C10'] = dict(
     level='proof',
-    units=['freelist'],
-    explanation='Freed space is reused: release equality (F2), first-fit completeness of allocate (F1), '
-                'extend-only-on-None (T1), persisted list = free + pending (F4), reload (F5).',
+    units=['freelist', 'txn', 'commit', 'open'],
+    explanation='Freed space is reused: release is an equality (F2: nothing kept back, nothing released early), the bound a writer passes is the oldest open reader or itself (X1) '
+                'and a closing reader removes exactly its own id keeping the list ascending (X2); allocate is first-fit and COMPLETE (F1: None only if no run exists) and the file is '
+                'extended only on None (T1); what is persisted is free + pending with exact length/multiset accounting (F4, W1 w6) and the old free-list run itself is released; '
+                'on open the list of the newest valid header is loaded (O1, F5).',
     assumptions=[A_TOOLS, A_ARITH],
     not_covered=['the plateau over thousands of transactions is a corollary, not measured'],
 )
